@@ -8,8 +8,11 @@ from vlib.scn import Scenario, h, unh
 from checks.outparse import parse_views, parse_raws
 
 ID = "C19"
-LEAN_MODULES = ["Econf.Props.C19"]
-THEOREMS = ["Econf.C19_block_shown", "Econf.C19_key_in_block", "Econf.C19_key_shown", "Econf.C19_key_line", "Econf.C19_groupless_only", "Econf.toolShow_lines", "Econf.decode_render", "Econf.C19_decode"]
+LEAN_MODULES = ["Econf.Props.C19", "Econf.Props.Leaf"]
+THEOREMS = ["Econf.C19_block_shown", "Econf.C19_key_in_block", "Econf.C19_key_shown", "Econf.C19_key_line", "Econf.C19_groupless_only", "Econf.toolShow_lines", "Econf.decode_render", "Econf.C19_decode",
+            "Leaf.C_replace_str", "Leaf.replaceSpec_length"]
+# econftool's in-place replacement of the escapes in --delimiters: translated from util/econftool.c on every run (gen/c2lean.py)
+LEAF_FNS = ["replace_str"]
 SHRINK = False
 RULE = ("two-layer trees under $ECONFTOOL_ROOT (vendor /usr/etc, local /etc) and single absolute files x --delimiters/--comment choices "
         "x files with only group-less keys, only sections, both, key-less sections, multi-line values, malformed lines: the freshly built "
